@@ -239,6 +239,8 @@ macro_rules! set_node_state {
              => panic!("Moving a job between kinds"), // if you encounter this from python, the
                                                        // sky must be falling
         }
+        #[cfg(tyberiusprime_pypipegraph2_verif)]
+        crate::engine::verif_hooks::log_transition(&$node.job_id, $node.state, $new_state);
         $node.state = $new_state;
         $gen.advance();
     };
@@ -941,7 +943,15 @@ impl<T: PPGEvaluatorStrategy> PPGEvaluator<T> {
                 .filter(|idx| !Self::has_downstreams(&self.dag, *idx))
                 .collect();
 
+            #[cfg(tyberiusprime_pypipegraph2_verif)]
+            let candidates = verif_hooks::permute_seam(0, candidates);
             for idx in candidates.iter() {
+                #[cfg(tyberiusprime_pypipegraph2_verif)]
+                verif_hooks::log_transition(
+                    &self.jobs[*idx].job_id,
+                    self.jobs[*idx].state,
+                    JobState::Ephemeral(JobStateEphemeral::FinishedSkipped),
+                );
                 debug!("removed leaf ephemeral {}", self.jobs[*idx].job_id);
                 self.dag.remove_node(*idx);
                 self.jobs[*idx].state = JobState::Ephemeral(JobStateEphemeral::FinishedSkipped);
@@ -1693,6 +1703,8 @@ impl<T: PPGEvaluatorStrategy> PPGEvaluator<T> {
         let mut best = None;
         let mut best_count = 0;
         let query = format!("!!!{}", downstream_id);
+        #[cfg(tyberiusprime_pypipegraph2_verif)]
+        let history = verif_hooks::OrderedKeys::new(history, &query);
         for history_entry in history.keys() {
             if history_entry.ends_with(&query) {
                 let (historical_upstream_id, _downstream_idx) =
@@ -2586,5 +2598,189 @@ impl<T: PPGEvaluatorStrategy> PPGEvaluator<T> {
             self.signals.push_back(signal)
         }
         debug!("done adding root signals\n");
+    }
+}
+
+#[cfg(tyberiusprime_pypipegraph2_verif)]
+pub mod verif_hooks {
+    //! Verification-only instrumentation (cfg tyberiusprime_pypipegraph2_verif).
+    //! Purely additive: structured snapshots, a transition log and two
+    //! ordering seams for iteration orders that are otherwise decided by
+    //! std's randomised hasher.
+    use super::*;
+    use std::cell::RefCell;
+
+    thread_local! {
+        static TRANSITIONS: RefCell<Vec<(String, JobState, JobState)>> = RefCell::new(Vec::new());
+        // seam id -> permutation index (Lehmer rank over the sorted candidates)
+        static SEAMS: RefCell<[usize; 2]> = RefCell::new([0, 0]);
+        static SEAM_MAX: RefCell<[usize; 2]> = RefCell::new([0, 0]);
+    }
+
+    pub fn log_transition(job_id: &str, from: JobState, to: JobState) {
+        TRANSITIONS.with(|t| t.borrow_mut().push((job_id.to_string(), from, to)));
+    }
+
+    pub fn take_transitions() -> Vec<(String, JobState, JobState)> {
+        TRANSITIONS.with(|t| std::mem::take(&mut *t.borrow_mut()))
+    }
+
+    pub fn set_seam(seam: usize, perm_rank: usize) {
+        SEAMS.with(|s| s.borrow_mut()[seam] = perm_rank);
+    }
+
+    /// largest number of candidates any seam call saw since the last reset
+    pub fn seam_width(seam: usize) -> usize {
+        SEAM_MAX.with(|s| s.borrow()[seam])
+    }
+    pub fn reset_seam_width() {
+        SEAM_MAX.with(|s| *s.borrow_mut() = [0, 0]);
+    }
+
+    pub fn permute_seam<T: Ord>(seam: usize, mut items: Vec<T>) -> Vec<T> {
+        items.sort();
+        SEAM_MAX.with(|s| {
+            let mut s = s.borrow_mut();
+            if items.len() > s[seam] {
+                s[seam] = items.len()
+            }
+        });
+        let mut rank = SEAMS.with(|s| s.borrow()[seam]);
+        let mut out = Vec::with_capacity(items.len());
+        while !items.is_empty() {
+            let n = items.len();
+            out.push(items.remove(rank % n));
+            rank /= n;
+        }
+        out
+    }
+
+    pub struct OrderedKeys<'a> {
+        keys: Vec<&'a String>,
+    }
+    impl<'a> OrderedKeys<'a> {
+        pub fn new(history: &'a HashMap<String, String>, suffix: &str) -> Self {
+            // only the keys the caller will look at take part in the seam,
+            // the rest follow in sorted order
+            let (hit, mut rest): (Vec<&String>, Vec<&String>) =
+                history.keys().partition(|k| k.ends_with(suffix));
+            rest.sort();
+            let mut keys = permute_seam(1, hit);
+            keys.extend(rest);
+            OrderedKeys { keys }
+        }
+        pub fn keys(&self) -> impl Iterator<Item = &'a String> + '_ {
+            self.keys.iter().copied()
+        }
+    }
+
+    #[derive(Clone, Debug, PartialEq, Eq)]
+    pub struct VerifJob {
+        pub job_id: String,
+        pub state: JobState,
+        pub history_output: Option<String>,
+        /// reconsider_job! would currently refuse to queue this job
+        pub considered_in_current_gen: bool,
+        pub in_dag: bool,
+    }
+    #[derive(Clone, Debug, PartialEq, Eq)]
+    pub struct VerifEdge {
+        pub upstream: usize,
+        pub downstream: usize,
+        pub required: Required,
+        pub invalidated: Required,
+    }
+    #[derive(Clone, Debug, PartialEq, Eq)]
+    pub struct VerifSnapshot {
+        pub jobs: Vec<VerifJob>,
+        pub edges: Vec<VerifEdge>,
+        pub ready_to_run: Vec<String>,
+        pub ready_for_cleanup: Vec<String>,
+        /// 0 not started, 1 running, 2 finished
+        pub start_status: u8,
+        pub pending_signals: usize,
+    }
+
+    impl Clone for EdgeInfo {
+        fn clone(&self) -> Self {
+            EdgeInfo {
+                required: self.required,
+                invalidated: self.invalidated,
+            }
+        }
+    }
+
+    impl<T: PPGEvaluatorStrategy + Clone> PPGEvaluator<T> {
+        /// deep copy of an evaluator between two driver calls (the signal
+        /// queue is empty then), so a search can branch without replaying.
+        pub fn verif_fork(&self) -> Self {
+            assert!(self.signals.is_empty(), "verif_fork inside a call");
+            PPGEvaluator {
+                // GraphMap::clone keeps node, edge and adjacency order
+                dag: self.dag.clone(),
+                jobs: self.jobs.clone(),
+                job_id_to_node_idx: self.job_id_to_node_idx.clone(),
+                history: self.history.clone(),
+                strategy: self.strategy.clone(),
+                already_started: match self.already_started {
+                    StartStatus::NotStarted => StartStatus::NotStarted,
+                    StartStatus::Running => StartStatus::Running,
+                    StartStatus::Finished => StartStatus::Finished,
+                },
+                jobs_ready_to_run: self.jobs_ready_to_run.clone(),
+                jobs_ready_for_cleanup: self.jobs_ready_for_cleanup.clone(),
+                topo: self.topo.clone(),
+                signals: VecDeque::new(),
+                gen: Generation {
+                    gen: self.gen.get(),
+                },
+            }
+        }
+    }
+
+    impl<T: PPGEvaluatorStrategy> PPGEvaluator<T> {
+        pub fn verif_snapshot(&self) -> VerifSnapshot {
+            let gen = self.gen.get();
+            let jobs = self
+                .jobs
+                .iter()
+                .enumerate()
+                .map(|(idx, j)| VerifJob {
+                    job_id: j.job_id.clone(),
+                    state: j.state,
+                    history_output: j.history_output.clone(),
+                    considered_in_current_gen: !(gen > j.last_considered_in_gen),
+                    in_dag: self.dag.contains_node(idx),
+                })
+                .collect();
+            let mut edges: Vec<VerifEdge> = self
+                .dag
+                .all_edges()
+                .map(|(a, b, w)| VerifEdge {
+                    upstream: a,
+                    downstream: b,
+                    required: w.required,
+                    invalidated: w.invalidated,
+                })
+                .collect();
+            edges.sort_by_key(|e| (e.upstream, e.downstream));
+            let mut ready_to_run: Vec<String> = self.jobs_ready_to_run.iter().cloned().collect();
+            ready_to_run.sort();
+            let mut ready_for_cleanup: Vec<String> =
+                self.jobs_ready_for_cleanup.iter().cloned().collect();
+            ready_for_cleanup.sort();
+            VerifSnapshot {
+                jobs,
+                edges,
+                ready_to_run,
+                ready_for_cleanup,
+                start_status: match self.already_started {
+                    StartStatus::NotStarted => 0,
+                    StartStatus::Running => 1,
+                    StartStatus::Finished => 2,
+                },
+                pending_signals: self.signals.len(),
+            }
+        }
     }
 }
